@@ -503,8 +503,8 @@ class Plan:
 
 
 _WRONG_KIND = {
-    "Int": [True, False, "abc", 1.5, {"a": 1}, "", "1.5"],
-    "Float": [True, "x", {"a": 1}, ""],
+    "Int": [True, False, "abc", 1.5, {"a": 1}, "", "1.5", "1__0", "_1", "1_", " ", "1 0", "+-1"],
+    "Float": [True, "x", {"a": 1}, "", "1__0", "_1.5", "1_", " ", "1 .5"],
     "String": [True, {"a": 1}, False],
     "ID": [1.5, True, {"a": 1}],
     "Boolean": [0, 1, "true", "", 1.5],
@@ -545,7 +545,9 @@ def gen_json(rng, sd, t, depth, plan):
         if lab == "int-out-of-range" and sk == "Int" and plan.fire(0.7):
             return rng.choice([2 ** 31, -2 ** 31 - 1, 10 ** 12, -10 ** 15, 2 ** 31 + 7])
         if lab == "numeric-string-for-number" and sk in ("Int", "Float") and plan.fire(0.7):
-            return rng.choice(["12", "-3", "0", "2147483647"] + (["1.5", "-0.25", "100"] if sk == "Float" else ["1.0", "1e3"]))
+            return rng.choice(["12", "-3", "0", "2147483647", "1_0", " 12 ", "+5", "\t7\n", "-1_000"]
+                              + (["1.5", "-0.25", "100", "1_0.5", " 1.5 ", "+2.5e1"] if sk == "Float"
+                                 else ["1.0", "1e3", " 1e3"]))
         if lab == "number-for-string" and sk == "String" and plan.fire(0.7):
             return rng.choice([3, -12, 1.5, 0, 2.25])
         if sk == "Int":
